@@ -5,6 +5,7 @@ import WorkflowModel.Model.Engine
 import WorkflowModel.Model.Adapters.RefStore
 import WorkflowModel.Model.Adapters.RefStream
 import WorkflowModel.Model.Adapters.RefTimeouts
+import WorkflowModel.Model.Adapters.SqlStore
 /-! Line-protocol driver for the correspondence check (T3). One command per input line, one answer per
 output line. Core-only imports, so it links as `lean_exe wfdriver`. Unknown commands answer `bad-op`
 (never a default). -/
@@ -268,6 +269,23 @@ def step (s : TStore) (args : List String) : Option (TStore × String) :=
 
 end TsDrv
 
+namespace WbDrv
+open WorkflowModel WorkflowModel.SqlStore
+
+def optList (v : String) : Option (List Str) := if v == "-" then none else some ((v.splitOn ",").map Text.ofString)
+
+def step (args : List String) : Option String :=
+  match args with
+  | [wf, fids, sts, rss, lim, off, ord] => do
+    let w := if wf == "-" then none else some (Text.ofString wf)
+    let o := if ord == "none" then [] else Text.ofString ord
+    let ops := listOps w (optList fids) (optList sts) (optList rss) (← lim.toInt?) (← off.toInt?) o
+    let f := (ops.foldl BOp.apply {}).finalise
+    some s!"{Text.toString f.1}|{",".intercalate (f.2.map Text.toString)}"
+  | _ => none
+
+end WbDrv
+
 structure Aux where
   rs : WorkflowModel.RefStore.Store := {}
   st : WorkflowModel.RefStream.Stream := {}
@@ -296,6 +314,10 @@ partial def loop (h : IO.FS.Stream) (out : IO.FS.Stream) (cfg : WorkflowModel.En
   | "st" :: rest =>
     match StDrv.step rs.st rest with
     | some (st', ans) => out.putStrLn ans; out.flush; loop h out cfg sys { rs with st := st' }
+    | none => out.putStrLn "bad-op"; out.flush; loop h out cfg sys rs
+  | "wb" :: rest =>
+    match WbDrv.step rest with
+    | some ans => out.putStrLn ans; out.flush; loop h out cfg sys rs
     | none => out.putStrLn "bad-op"; out.flush; loop h out cfg sys rs
   | "ts" :: rest =>
     match TsDrv.step rs.ts rest with
